@@ -195,9 +195,9 @@ def single_faults(doc):
         if idx > 0:
             yield ('dup name root', kind, idx, at(lambda s2, p2, d2: s2.__setitem__('name', d2['statechart']['root state']['name'])))
         if kind == 'final':
-            yield ('transitions on final', kind, idx, at(lambda s2, p2, d2: s2.__setitem__('transitions', [{'event': 'e'}])))
+            yield ('transitions on final', kind, idx, at(lambda s2, p2, d2, v=({'event': 'e'}, {})[idx % 2]: s2.__setitem__('transitions', [dict(v)])))
         if kind in ('shallow history', 'deep history'):
-            yield ('transitions on history', kind, idx, at(lambda s2, p2, d2: s2.__setitem__('transitions', [{'event': 'e', 'target': p2['name']}])))
+            yield ('transitions on history', kind, idx, at(lambda s2, p2, d2, e=idx % 3 == 0: s2.__setitem__('transitions', [{}] if e else [{'event': 'e', 'target': p2['name']}])))
             yield ('memory self', kind, idx, at(lambda s2, p2, d2: s2.__setitem__('memory', s2['name'])))
             yield ('memory unknown', kind, idx, at(lambda s2, p2, d2: s2.__setitem__('memory', 'NOPE')))
             sib = [c['name'] for c in p['states']]
@@ -207,16 +207,16 @@ def single_faults(doc):
         if kind in ('basic', 'compound', 'orthogonal'):
             def addt(td):
                 return lambda s2, p2, d2: s2.setdefault('transitions', []).append(dict(td))
-            yield ('unknown target', kind, idx, at(addt({'target': 'NOPE', 'event': 'e'})))
+            yield ('unknown target', kind, idx, at(addt({'target': ('NOPE', None)[idx % 4 == 3 and 'None' not in names], 'event': 'e'})))
             yield ('empty target', kind, idx, at(addt({'target': '', 'event': 'e'})))
             nm = names[idx % len(names)]
             near = nm + ' ' if not nm.endswith(' ') else nm.strip() + '_'
             if near not in names:
                 yield ('near-miss target', kind, idx, at(addt({'target': near})))
             yield ('priority word', kind, idx, at(addt({'event': 'e', 'priority': ('urgent', 'High', 'LOW', 'high ', '')[idx % 5]})))
-            yield ('priority list', kind, idx, at(addt({'event': 'e', 'priority': [1]})))
+            yield ('priority list', kind, idx, at(addt({'event': 'e', 'priority': ([1], None)[idx % 2]})))
             yield ('priority mapping', kind, idx, at(addt({'event': 'e', 'priority': {'a': 1}})))
-            yield ('unknown key transition', kind, idx, at(addt({'event': 'e', 'bogus': 1})))
+            yield ('unknown key transition', kind, idx, at(addt({'event': 'e', 'bogus': (1, None)[idx % 2]})))
             yield ('transitions mapping', kind, idx, at(lambda s2, p2, d2: s2.__setitem__('transitions', {'event': 'e'})))
             yield ('transition item scalar', kind, idx, at(lambda s2, p2, d2, v=(3, None, 'e')[idx % 3]: s2.setdefault('transitions', []).append(v)))
             if kind == 'compound':
@@ -240,15 +240,17 @@ def single_faults(doc):
                 if unc:
                     yield ('initial uncle', kind, idx, at(lambda s2, p2, d2, u=unc[0]: s2.__setitem__('initial', u)))
             yield ('states scalar', kind, idx, at(lambda s2, p2, d2: s2.__setitem__('states', 'x')))
-        yield ('unknown key state', kind, idx, at(lambda s2, p2, d2: s2.__setitem__('bogus', 1)))
-        yield ('unknown type', kind, idx, at(lambda s2, p2, d2: s2.__setitem__('type', 'weird')))
+        yield ('unknown key state', kind, idx, at(lambda s2, p2, d2, v=(1, None, '')[idx % 3]: s2.__setitem__('bogus', v)))
+        yield ('unknown type', kind, idx, at(lambda s2, p2, d2, v=('weird', None, 'Final')[idx % 3]: s2.__setitem__('type', v)))
         yield ('missing state name', kind, idx, at(lambda s2, p2, d2: s2.pop('name')))
         yield ('contract scalar', kind, idx, at(lambda s2, p2, d2: s2.__setitem__('contract', 'x')))
         yield ('contract item scalar', kind, idx, at(lambda s2, p2, d2: s2.__setitem__('contract', ['True'])))
     yield ('missing statechart name', '-', -1, lambda d2: d2['statechart'].pop('name'))
     yield ('missing root state', '-', -1, lambda d2: d2['statechart'].pop('root state'))
     yield ('unknown key statechart', '-', -1, lambda d2: d2['statechart'].__setitem__('bogus', 1))
+    yield ('unknown key statechart', '-', -2, lambda d2: d2['statechart'].__setitem__('bogus', None))
     yield ('unknown key top', '-', -1, lambda d2: d2.__setitem__('bogus', 1))
+    yield ('unknown key top', '-', -2, lambda d2: d2.__setitem__('bogus', None))
     # sections of the wrong shape (a statechart section that is empty / a list / a scalar lacks both name and root state)
     for j, v in enumerate((None, [], 3, 'x')):
         yield ('statechart not a mapping', '-', -10 - j, lambda d2, v=v: d2.__setitem__('statechart', v))
